@@ -739,3 +739,95 @@ equivalent("c14-eq-key-order-changed", "C14", (I, """            elif key == "de
                 ov.lock_previous = self.boolean(value)
             elif key == "default":
                 ov.default_value = to_float(value)"""))
+
+# ------------------------------------------------------------------------------------------ C15
+mutant("c15-variable-repr-pops-lock-range", "C15", (V, """        fields.pop("_value")
+
+        if not self.description:
+            fields.pop("description")
+        if self.enabled:
+            fields.pop("enabled")
+
+        return representation.as_constructor(self, fields)
+
+    def clear(self) -> None:
+        \"\"\"Clear the variable to its initial state""", """        fields.pop("_value")
+        fields.pop("lock_range")
+
+        if not self.description:
+            fields.pop("description")
+        if self.enabled:
+            fields.pop("enabled")
+
+        return representation.as_constructor(self, fields)
+
+    def clear(self) -> None:
+        \"\"\"Clear the variable to its initial state"""), "R1/Variable.lock_range") if False else None
+mutant("c15-output-variable-forgets-aggregation", "C15", (V, '        fields["aggregation"] = self.aggregation\n', ''), "R1/OutputVariable.aggregation")
+mutant("c15-elision-polarity-flipped", "C15", (R, """        if self.enabled:
+            fields.pop("enabled")
+        return representation.as_constructor(self, fields)
+
+    def activate(self)""", """        if not self.enabled:
+            fields.pop("enabled")
+        return representation.as_constructor(self, fields)
+
+    def activate(self)"""), "R2/RuleBlock.enabled")
+mutant("c15-default-changed-without-guard", "C15", (R, """        name: str = "",
+        description: str = "",
+        enabled: bool = True,
+        conjunction: TNorm | None = None,""", """        name: str = "",
+        description: str = "",
+        enabled: bool = False,
+        conjunction: TNorm | None = None,"""), "R2/RuleBlock.enabled")
+mutant("c15-comparator-repr-by-name", "C15", (A, """            return f"'{self.value}'"
+
+        @property
+        def operator""", """            return f"'{self.name}'"
+
+        @property
+        def operator"""), "R6/Threshold.Comparator")
+mutant("c15-literal-alias-in-rule-repr", "C15", (R, """        return f"{Op.class_name(self, qualname=True)}.{Rule.create.__name__}('{self.text}')\"""", """        return f"fl.Rule.{Rule.create.__name__}('{self.text}')\""""), "R5/Rule.__repr__")
+mutant("c15-class-dropped-from-all", "C15", (N, '    "Maximum",\n', ''), "R7/norm/__all__")
+mutant("c15-bell-height-default-changed", "C15", (T, """        width: float = nan,
+        slope: float = nan,
+        height: float = 1.0,""", """        width: float = nan,
+        slope: float = nan,
+        height: float = 0.5,"""), "R2/Bell.height")
+mutant("c15-import-statement-ignores-star", "C15", (L, """        elif settings.alias == "*":
+            return "from fuzzylite import *\"""", """        elif settings.alias == "all":
+            return "from fuzzylite import *\""""), "R8/")
+mutant("c15-weighted-type-repr-by-value", "C15", (D, """            return f"'{self.name}'"
+
+    def __init__(
+        self,
+        type: str | WeightedDefuzzifier.Type = Type.Automatic,""", """            return f"'{self.value}'"
+
+    def __init__(
+        self,
+        type: str | WeightedDefuzzifier.Type = Type.Automatic,"""), "R6/WeightedDefuzzifier.Type")
+mutant("c15-encapsulate-without-import", "C15", (X, '        code = f"{representation.import_statement()}\\n\\n"', '        code = ""'), "R9/PythonExporter.encapsulate")
+mutant("c15-engine-attr-renamed", "C15", (E, "        self.rule_blocks = list(rule_blocks or [])\n        if load:", "        self.rule_blocks = list(rule_blocks or [])\n        self.blocks = self.rule_blocks\n        if load:"), "", kind="equivalent")
+mutant("c15-aggregated-pops-terms", "C15", (T, """        fields = vars(self).copy()
+        fields.pop("height")
+        return representation.as_constructor(self, fields)
+
+    def parameters(self) -> str:""", """        fields = vars(self).copy()
+        fields.pop("height")
+        fields.pop("terms")
+        return representation.as_constructor(self, fields)
+
+    def parameters(self) -> str:"""), "R1/Aggregated.terms")
+mutant("c15-settings-rename-dropped", "C15", (L, '        fields["factory_manager"] = fields.pop("_factory_manager")\n', ''), "R1/Settings.factory_manager")
+equivalent("c15-eq-explicit-fields", "C15", (E, """        fields = vars(self).copy()
+        if not self.description:
+            fields.pop("description")
+        return representation.as_constructor(self, fields)
+
+    def configure(""", """        fields = {"name": self.name, "description": self.description, "input_variables": self.input_variables,
+                  "output_variables": self.output_variables, "rule_blocks": self.rule_blocks}
+        if not self.description:
+            fields.pop("description")
+        return representation.as_constructor(self, fields)
+
+    def configure("""))
